@@ -423,6 +423,18 @@ impl<'buf, IO: Io> Connection<'_, 'buf, IO> {
         Ok(())
     }
 
+    /// Complete a packet that is already partially on the wire, so that a packet written
+    /// directly to the transport afterwards starts at a packet boundary.
+    pub(super) async fn finish_current_packet(&mut self) -> Result<(), Error<IO::Error>> {
+        while let Some(step) = self.session.data.outbound.next_step() {
+            if !step.in_progress() {
+                break;
+            }
+            self.perform_outbound_step(step, Instant::now()).await?;
+        }
+        Ok(())
+    }
+
     pub(super) async fn flush_outbound(&mut self) -> Result<(), Error<IO::Error>> {
         loop {
             self.maybe_queue_pingreq(Instant::now())?;
